@@ -132,6 +132,8 @@ def run(ctx: Ctx):
     ruin_repair_visit_stamps(ctx)
     sampler_over_all_moves(ctx)
     neuopt_padding(ctx)
+    mask_caller_convention(ctx)
+    step_to_solution_through_step(ctx)
     # get_costs definition
     base = ctx.repo.get_class("rl4co/envs/common/base.py", "ImprovementEnvBase")
     fi = base.methods["get_costs"]
@@ -445,6 +447,49 @@ def neuopt_padding(ctx: Ctx):
                construct="NeuOptPolicy.forward:record-after-padding")
     if found != 1:
         raise AnalysisError(f"NeuOptPolicy.forward: expected one decoding loop with a stopped-row override, found {found}")
+
+
+def mask_caller_convention(ctx: Ctx):
+    """C09.l `PDPRuinRepairEnv.get_mask(selected_node, td)` takes the NODE index of the removed pickup (1-based: node 0 is the
+    depot); the callers hold the 0-based PAIR index (the first column of the action) and must pass it `+ 1`.  Sibling agreement
+    over every call site of the two-argument get_mask (the env's own sampler and the N2S policy)."""
+    import ast
+    sites = []
+    for mi in sorted(ctx.repo.modules.values(), key=lambda m: m.relpath):
+        if not mi.relpath.startswith("rl4co/"):
+            continue
+        for c in ast.walk(mi.tree):
+            if isinstance(c, ast.Call) and isinstance(c.func, ast.Attribute) and c.func.attr == "get_mask" and len(c.args) == 2:
+                sites.append((mi, c))
+    if len(sites) < 2:
+        raise AnalysisError(f"only {len(sites)} call site(s) of get_mask(selected, td) found")
+    for mi, c in sites:
+        a = c.args[0]
+        plus1 = isinstance(a, ast.BinOp) and isinstance(a.op, ast.Add) and any(isinstance(x, ast.Constant) and x.value == 1 for x in (a.left, a.right))
+        ctx.repo.note(mi)
+        ctx.ob("C09.l", f"{mi.relpath}:get_mask({ast.unparse(a)[:30]}, td):node-index", plus1, f"{mi.relpath}:{c.lineno}",
+               f"first argument `{ast.unparse(a)[:50]}`: pair index + 1 (node index of the pickup) -- {plus1}" +
+               ("" if plus1 else "; get_mask then blocks the rows of the neighbouring pair and leaves the removed nodes selectable as insertion points"),
+               construct=f"{mi.relpath}:get_mask-argument")
+
+
+def step_to_solution_through_step(ctx: Ctx):
+    """C09.m jumping to a given solution goes through `_step(td, solution_to=...)` on every path: that is where cost_current,
+    the best-so-far bookkeeping and visited_time are rebuilt from the new tour.  A shortcut that writes rec_current itself
+    leaves visited_time describing the previous tour (get_mask, the k-opt sampler and NeuOpt read it)."""
+    import ast
+    base = ctx.repo.get_class("rl4co/envs/common/base.py", "ImprovementEnvBase")
+    fi = base.methods.get("step_to_solution")
+    if fi is None:
+        raise AnalysisError("ImprovementEnvBase.step_to_solution not found")
+    ctx.fn(fi)
+    from ..model import returned_exprs
+    rets = list(returned_exprs(fi.node))
+    via = [r for r in rets if isinstance(r, ast.Call) and isinstance(r.func, ast.Attribute) and r.func.attr == "_step" and any(k.arg == "solution_to" for k in r.keywords)]
+    ok = bool(rets) and len(via) == len(rets)
+    ctx.ob("C09.m", "ImprovementEnvBase.step_to_solution:every-path-through-_step", ok, fi.loc,
+           f"{len(rets)} return(s), {len(via)} of them self._step(td, solution_to=solution)" + ("" if ok else " -- the other path hands back a state whose derived fields were not rebuilt"),
+           construct="ImprovementEnvBase.step_to_solution:bypass")
 
 
 def run_thorough(ctx: Ctx):
